@@ -165,8 +165,48 @@ def parse_errors(stderr, text):
         fn = fmap[line - 1] if 0 < line <= len(fmap) else None
         # postcondition errors point at the ensures clause; the function is the same either way
         src = text.split('\n')[line - 1].strip() if 0 < line else ''
-        errs.append({'kind': msg, 'line': line, 'function': fn, 'source': src[:200], 'detail': blk[:1500]})
+        errs.append({'kind': msg, 'line': line, 'function': fn, 'source': src[:200], 'detail': blk[:6000]})
     return errs
+
+
+_ADDED_STMT = re.compile(r'^\s*(return\b|debug_assert|assert!|assert_eq!|debug_assert_eq!|assert\s*\(|unreachable!|panic!)')
+
+
+def baseline_line_set(unit):
+    """whitespace-free lines of the unit as generated from the COMMITTED tree (git HEAD of the repository under check);
+    None when that tree is not available"""
+    import shlex, shutil, tempfile
+    tmp = tempfile.mkdtemp(prefix='espada_head_')
+    try:
+        p = subprocess.run('git -C %s archive HEAD | tar -x -C %s' % (shlex.quote(REPO), shlex.quote(tmp)), shell=True, capture_output=True, text=True, timeout=120)
+        if p.returncode != 0 or not os.path.exists(os.path.join(tmp, 'src')):
+            return None
+        text = UnitBuilder(tmp).build(os.path.join(VERIF, 'units', unit + '.vt'))
+        return set(re.sub(r'\s+', '', l) for l in text.split('\n'))
+    except Exception:
+        return None
+    finally:
+        shutil.rmtree(tmp, ignore_errors=True)
+
+
+def only_added_statements(r, failed_fns):
+    """True iff EVERY verification error of the failed functions quotes a statement that the uncommitted change ADDED and
+    that is an exit or an assertion (an early `return`, assert!, debug_assert!, unreachable!).  Such an obligation did not
+    exist on the committed tree: not being able to discharge it is not "an obligation that passed and now fails"."""
+    errs = [e for e in r.errors if e['function'] and any(f == e['function'] or f.endswith('::' + e['function']) for f in failed_fns)]
+    if not errs:
+        return False
+    base = baseline_line_set(r.unit)
+    if base is None:
+        return False
+    lines = open(r.path).read().split('\n')
+    for e in errs:
+        if re.search(r'resource limit|rlimit', e['kind'], re.I):
+            return False
+        nums = set(int(x) for x in re.findall(r'^\s*(\d+)\s*\|', e['detail'], re.M))
+        if not any(0 < k <= len(lines) and _ADDED_STMT.match(lines[k - 1]) and re.sub(r'\s+', '', lines[k - 1]) not in base for k in nums):
+            return False
+    return True
 
 
 def check_canaries(unit, mode='fn'):
